@@ -100,6 +100,20 @@ func TestFileShapes(t *testing.T) {
 	for _, s := range sections {
 		run("without-"+s.name, fileDoc(rich, map[string]bool{s.name: true}))
 	}
+	// the whole (rich) file loaded by a Manager on which one component, or
+	// every component but the cluster one, is not registered
+	for _, s := range sections {
+		unregistered = map[string]bool{s.name: true}
+		run("component-not-registered:"+s.name, fileDoc(rich, nil))
+	}
+	unregistered = map[string]bool{}
+	for _, s := range sections {
+		if s.name != "cluster" {
+			unregistered[s.name] = true
+		}
+	}
+	run("only-cluster-registered", fileDoc(rich, nil))
+	unregistered = nil
 	only := map[string]bool{}
 	for _, s := range sections {
 		if s.name != "cluster" {
